@@ -5,6 +5,7 @@ import (
 	"fmt"
 	"reflect"
 	"regexp"
+	"sort"
 
 	"github.com/graphql-go/graphql/language/ast"
 )
@@ -535,7 +536,15 @@ func defineFieldMap(ttype Named, fieldMap Fields) (FieldDefinitionMap, error) {
 		}
 
 		fieldDef.Args = []*Argument{}
-		for argName, arg := range field.Args {
+		// in name order: the configuration is a map, and the order of Args
+		// shows in introspection and in error messages
+		argNames := make([]string, 0, len(field.Args))
+		for argName := range field.Args {
+			argNames = append(argNames, argName)
+		}
+		sort.Strings(argNames)
+		for _, argName := range argNames {
+			arg := field.Args[argName]
 			if err = assertValidName(argName); err != nil {
 				return resultFieldMap, err
 			}
@@ -974,7 +983,13 @@ func (gt *Enum) defineEnumValues(valueMap EnumValueConfigMap) ([]*EnumValueDefin
 		return values, err
 	}
 
-	for valueName, valueConfig := range valueMap {
+	valueNames := make([]string, 0, len(valueMap))
+	for valueName := range valueMap {
+		valueNames = append(valueNames, valueName)
+	}
+	sort.Strings(valueNames)
+	for _, valueName := range valueNames {
+		valueConfig := valueMap[valueName]
 		if err = invariantf(
 			valueConfig != nil,
 			`%v.%v must refer to an object with a "value" key `+
